@@ -782,6 +782,33 @@ def _sort_by_key_ids(ex, st, args, dest_ty, func, where):
     return UNIT
 
 
+CMPKEY = z3.Function("order_of_the_comparator", z3.IntSort(), z3.IntSort())
+
+
+def _sort_by_cmp_ids(ex, st, args, dest_ty, func, where):
+    """<[T]>::sort_by / sort_unstable_by on a sequence of ids with a comparator closure that is NOT executed: the comparator is SOME
+    total order on the elements (an uninterpreted injective rank) - it need not be the order the maps iterate in"""
+    ref = args[0]
+    s = ex.deref(st, ref)
+    if not isinstance(s, VSeq):
+        raise Unsupported("sort_by on %r" % (s,))
+    cap, U = ex.sort_cap, ex.universe
+    ex.oblig("model-bound", where, "sort: sequence longer than the model capacity %d" % cap, z3.And(st.guard, s.len > cap))
+    out = z3.Array("sortedc!%d" % next(ex.fresh), z3.IntSort(), z3.IntSort())
+    ax = [CMPKEY(u) != CMPKEY(v) for u in range(U) for v in range(u + 1, U)]
+    for i in range(cap):
+        ax.append(z3.Implies(i < s.len, z3.And(z3.Select(out, i) >= 0, z3.Select(out, i) < U)))
+        if i + 1 < cap:
+            ax.append(z3.Implies(i + 1 < s.len, CMPKEY(z3.Select(out, i)) <= CMPKEY(z3.Select(out, i + 1))))
+    for u in range(U):
+        cin = sum([z3.If(z3.And(i < s.len, s.at(I(i)) == u), 1, 0) for i in range(cap)])
+        cout = sum([z3.If(z3.And(i < s.len, z3.Select(out, i) == u), 1, 0) for i in range(cap)])
+        ax.append(cin == cout)
+    ex.assumes.append(z3.Implies(st.guard, z3.And(*ax)))
+    ex.store_ref(st, ref, VSeq(out, I(0), s.len, s.elem))
+    return UNIT
+
+
 def _chain(ex, st, args, dest_ty, func, where):
     return VStruct("Chain", [args[0], args[1]])
 
@@ -855,6 +882,7 @@ def install_collections(ex, universe, sort_cap):
     A(r"^<Vec<&PathBuf> as (std::ops::)?DerefMut>::deref_mut$", _deref_mut_same, "<Vec<T> as DerefMut>::deref_mut")
     A(r"^(std|core)::slice::<impl \[&PathBuf\]>::sort(_unstable)?$", _sort_ids, "<[&PathBuf]>::sort_unstable (sorted permutation axioms)")
     A(r"^Vec::<&PathBuf>::dedup$", _dedup, "Vec::dedup (consecutive duplicates removed)")
+    A(r"^(std|core)::slice::<impl \[&PathBuf\]>::sort(_unstable)?_by::<", _sort_by_cmp_ids, "<[&PathBuf]>::sort_by / sort_unstable_by (SOME total order: uninterpreted injective rank)")
     A(r"^(std|core)::slice::<impl \[&PathBuf\]>::sort_by_(cached_)?key::<", _sort_by_key_ids, "<[&PathBuf]>::sort_by_key / sort_by_cached_key (stable sort by an UNINTERPRETED key)")
     A(r"^<std::vec::IntoIter<&PathBuf> as Iterator>::next$", _vec_into_iter_next, "vec::IntoIter::next")
     A(r"^<Vec<PathBuf> as (std::ops::)?DerefMut>::deref_mut$", _deref_mut_same, "<Vec<T> as DerefMut>::deref_mut")
